@@ -548,7 +548,15 @@ fn c13() -> Property {
     Property {
         id: "C13",
         level: "exploration",
-        variants: vec![Variant {
+        variants: vec![
+            Variant {
+                name: "listener-pipelined-teardown",
+                weight: 1,
+                make: || Box::pin(scen::c13l::run()),
+                max_steps: 3_000_000,
+                cases_per_seed: 1,
+                note: "real listener <-> scripted peer that writes attach + detach (closing or not, with or without an error; optionally a transfer in between) in one go before the application has accepted the link or even the session, or begin + end in one go: lifecycle models on what the listener writes, the detach of a link the listener did attach answered in kind once everything is at rest, the end answered, no session or connection torn down, and a sibling link on the same handle / a sibling session on the same channel works afterwards",
+            },Variant {
             name: "pair-lifecycle-sequences",
             weight: 1,
             make: || Box::pin(scen::life::run_c13()),
